@@ -1263,3 +1263,29 @@ package main
 //@   modifies maps
 //@   panics may
 //@   ensures grammar: Rtype(ps, result.E0, result.E1)
+
+// ---------------------------------------------------------------------------------------------
+// Forward-declaration placeholders (C15, C16): transTRecurse applies the translation at least once and
+// again until no placeholder is left; every application feeds on the previous result; the retry count
+// bounds the recursion.
+// ---------------------------------------------------------------------------------------------
+
+//@ func PanicNow
+//@   props C15 C16
+//@   panics iff true
+
+//@ func noTDTVarInFType
+//@   trusted
+//@   panics never
+//@   returns-def no_tdtv(ft)
+//@   note definitional: no_tdtv names the value of this pure function (collect type-variable names, none starts with "_P")
+
+//@ func transTRecurse
+//@   props C15 C16
+//@   panics may
+//@   decreases 1001 - count
+//@   ensures applied: calls(transT) > old(calls(transT))
+//@   ensures first: arg(transT, old(calls(transT))) == ft
+//@   ensures chain: forall j int :: old(calls(transT)) <= j && j + 1 < calls(transT) ==> arg(transT, j + 1) == transT(arg(transT, j))
+//@   ensures last: result == transT(arg(transT, calls(transT) - 1))
+//@   ensures clean: no_tdtv(result)
